@@ -250,6 +250,16 @@ struct LoomRun {
     secs: f64,
 }
 
+/// Wall-clock limit of one loom run (build included): `PVH_LOOM_TIMEOUT_S`, else 600 s (quick) / 3600 s (thorough).
+fn loom_timeout() -> std::time::Duration {
+    static LIMIT: std::sync::OnceLock<u64> = std::sync::OnceLock::new();
+    std::time::Duration::from_secs(*LIMIT.get_or_init(|| {
+        std::env::var("PVH_LOOM_TIMEOUT_S").ok().and_then(|s| s.parse().ok()).unwrap_or_else(|| {
+            if std::env::args().any(|a| a == "thorough") { 3600 } else { 600 }
+        })
+    }))
+}
+
 fn test_name(scenario: &str) -> String {
     format!("verif_loom::{}", scenario.replace('-', "_"))
 }
@@ -282,13 +292,49 @@ fn run_loom(scenarios: &[String], max_preemptions: Option<u32>, test_threads: us
     if let Some(n) = max_preemptions {
         cmd.env("LOOM_MAX_PREEMPTIONS", n.to_string());
     }
-    let out = cmd.output().expect("run cargo test in /repo");
-    let text = format!("{}\n{}", String::from_utf8_lossy(&out.stdout), String::from_utf8_lossy(&out.stderr));
+    // The run is bounded in wall-clock time: a change to the synchronisation code can blow up loom's state
+    // space (seeded C12-9: one more atomic in the waker made a 3-thread scenario run for more than half an
+    // hour). The output goes to files, so that what the scenarios that DID finish printed is still judged
+    // (each test prints its outcome set when it is done) and only the others are reported as unexplored.
+    use std::os::unix::process::CommandExt;
+    static RUN_NO: std::sync::atomic::AtomicU32 = std::sync::atomic::AtomicU32::new(0);
+    let n = RUN_NO.fetch_add(1, std::sync::atomic::Ordering::Relaxed);
+    let tmp = std::path::PathBuf::from("/verif/.build/tmp");
+    std::fs::create_dir_all(&tmp).expect("scratch directory");
+    let (po, pe) = (tmp.join(format!("pvh-loom-{}-{n}.out", std::process::id())), tmp.join(format!("pvh-loom-{}-{n}.err", std::process::id())));
+    cmd.stdout(std::fs::File::create(&po).expect("loom output file")).stderr(std::fs::File::create(&pe).expect("loom output file")).process_group(0);
+    let limit = loom_timeout();
+    let mut child = cmd.spawn().expect("run cargo test in /repo");
+    let mut timed_out = false;
+    let status = loop {
+        if let Some(st) = child.try_wait().expect("wait for cargo test") {
+            break Some(st);
+        }
+        if t0.elapsed() > limit {
+            timed_out = true;
+            // the test binary is a grandchild: kill the whole process group
+            let _ = Command::new("kill").args(["-KILL", "--", &format!("-{}", child.id())]).status();
+            let _ = child.kill();
+            let _ = child.wait();
+            break None;
+        }
+        std::thread::sleep(std::time::Duration::from_millis(100));
+    };
+    let mut text = format!("{}\n{}", std::fs::read_to_string(&po).unwrap_or_default(), std::fs::read_to_string(&pe).unwrap_or_default());
+    let _ = std::fs::remove_file(&po);
+    let _ = std::fs::remove_file(&pe);
+    if timed_out {
+        text.push_str(&format!(
+            "\nLOOM-RUN-KILLED: not finished after {:.0} s (limit of this tier; on the unchanged tree the run takes about a minute including the build): \
+             loom's exploration of the scenarios without an outcome line did not terminate\n",
+            limit.as_secs_f64()
+        ));
+    }
     let mut run = LoomRun {
         schedules: BTreeMap::new(),
         outcomes: BTreeMap::new(),
         explored: BTreeMap::new(),
-        ok: out.status.success(),
+        ok: status.is_some_and(|s| s.success()),
         tail: String::new(),
         secs: 0.0,
     };
